@@ -172,6 +172,8 @@ mod serde_utils;
 mod traits_graph;
 pub mod unionfind;
 mod util;
+#[cfg(feature = "verif-hooks")]
+pub mod verif;
 
 pub mod operator;
 pub mod prelude;
